@@ -633,3 +633,43 @@ Theorem C18_wide_classes_decidable :
   (forall pcf posf vf w cd, cand_classw_b pcf posf vf w cd = true -> cand_classw pcf posf vf w cd).
 Proof. exact wide_classes_decidable. Qed.
 Print Assumptions C18_wide_classes_decidable.
+
+(** [args_conflicts_with_subcommands]: the engine does not model the parser's per-level "an argument was seen" flag.
+    On a level [pc] that sets it, behind arguments [pre] of the level, at a word [tok] naming the subcommand [sc0]:
+    (1) the engine descends, always; (2) [pre = []]: the parser dispatches to the same child; (3) [pre <> []]: the
+    parser does not read [tok] as a subcommand - with a positional left at the counter it takes [tok] as its value
+    and stays at [pc], with none left it rejects the line with ArgumentConflict *)
+Theorem C18_args_conflict_levels : forall pc cur pre F pos tok sc0,
+  lvlw pc -> lvl_rel pc cur -> is_set s_args_negate_subs pc = true ->
+  ChainWide.pitems pc 1 pre F pos -> utf8_valid tok = true -> find_subcommand pc tok = Some sc0 -> aliases_to sc0 s_help = false ->
+  (exists es pc', shadow_run (pre ++ [tok]) cur 1 false ValueDone = SNext es 1 false ValueDone /\
+                  build_subcommand pc (c_name sc0) = Some pc' /\ lvl_rel pc' es) /\
+  (pre = [] -> forall rest st, exists n', find_subcommand pc n' = Some sc0 /\
+     parse_loop pc (tok :: rest) (Chain.lsV 1 false) st = ROk (LSub n' false false st rest)) /\
+  (pre <> [] -> ChainWide.plain_tok tok -> forall rest st, fs_skip st = 0 ->
+     (forall a, ChainWide.takes_at pc pos a tok ->
+        parse_loop pc (pre ++ tok :: rest) (Chain.lsV 1 false) st =
+        (do st' <- F st; do st'' <- ChainWide.pos_push pc a tok st'; parse_loop pc rest (ChainWide.after_pos a pos) st'')) /\
+     (ChainWide.pos_plain pc -> get_pos pc pos = None -> is_set s_allow_external pc = false ->
+        parse_loop pc (pre ++ tok :: rest) (Chain.lsV 1 false) st =
+        (do st' <- F st; do st1 <- resolve_pending_ignore pc st'; RErr (match_arg_error pc tok true false) st1) /\
+        e_kind (match_arg_error pc tok true false) = EArgumentConflict)).
+Proof. exact args_conflict_levels. Qed.
+Print Assumptions C18_args_conflict_levels.
+
+(** the witnesses (same on the real crate, corpus/C18/accept.args-conflict.cases).  W1, `p(-f; args_conflicts) -> sub`:
+    `p -f <TAB>` offers the subcommand `sub`, the parser rejects `p -f sub` with ArgumentConflict, the engine is at `sub`
+    behind it.  W2, the same with a positional <file>: the parser ACCEPTS `p -f sub` (`sub` is the value of <file>), the
+    engine stands at `sub` and offers `--opt` (id arg::opt), and `p -f sub --opt` is rejected with UnknownArgument:
+    an OPTION candidate the parser rejects as unknown, behind a line it accepts *)
+Theorem C18_args_conflict_refuted :
+  Conflict.has_cand Conflict.w_sub (IdCmd Conflict.w_sub) (complete_model [] Conflict.c1 [[112]; Conflict.f; []] 2) = true /\
+  Conflict.kind_of (parse_top Conflict.c1 [[112]; Conflict.f; Conflict.w_sub]) = Some EArgumentConflict /\
+  Conflict.level_at Conflict.c1 [[112]; Conflict.f; Conflict.w_sub; []] 3 = Some Conflict.w_sub /\
+  Conflict.accepted (parse_top Conflict.c2 [[112]; Conflict.f; Conflict.w_sub]) = true /\
+  Conflict.level_at Conflict.c2 [[112]; Conflict.f; Conflict.w_sub; [45; 45]] 3 = Some Conflict.w_sub /\
+  Conflict.has_cand (45 :: 45 :: Conflict.w_opt) (IdArg Conflict.w_opt)
+    (complete_model [] Conflict.c2 [[112]; Conflict.f; Conflict.w_sub; [45; 45]] 3) = true /\
+  Conflict.kind_of (parse_top Conflict.c2 [[112]; Conflict.f; Conflict.w_sub; 45 :: 45 :: Conflict.w_opt]) = Some EUnknownArgument.
+Proof. exact args_conflict_refuted. Qed.
+Print Assumptions C18_args_conflict_refuted.
